@@ -212,10 +212,19 @@ class Rho:
     def out(self, sig, k):
         return self.h('out', sig, k)
 
+    # a < b is b > a, a == b is b == a ...: Python itself evaluates `x < y` as
+    # `y > x` when type(y) is a subclass of type(x) (e.g. LFNoise1 / LFNoise0),
+    # so both spellings denote the same unit; canonical form for the hash.
+    _FLIP = {6: 6, 7: 7, 8: 9, 9: 8, 10: 11, 11: 10}   # == != < > <= >=
+
     def op(self, cls, special, ins):
         # operator units: rate is not part of the value (it is checked
         # structurally on the decoded side: max of the input rates)
-        return self.h('op', cls, special, tuple(ins))
+        ins = tuple(ins)
+        if cls == 'BinaryOpUGen' and special in self._FLIP and len(ins) == 2:
+            special, ins = min((special, ins),
+                               (self._FLIP[special], (ins[1], ins[0])))
+        return self.h('op', cls, special, ins)
 
 
 # generation-time analysis: base interpretation; audio leaves re-drawn; audio
